@@ -185,6 +185,20 @@ func (p *FloatingIPPlugin) unbind(pod *corev1.Pod) error {
 		return err
 	}
 	key := keyObj.KeyInDB
+	if uid := string(pod.UID); uid != "" {
+		ipInfos, err := p.ipam.ByKeyAndIPRanges(key, nil)
+		if err != nil {
+			return fmt.Errorf("query floating ip by key %s: %v", key, err)
+		}
+		for _, ipInfo := range ipInfos {
+			if ipInfo.PodUid != "" && ipInfo.PodUid != uid {
+				// a late event of an older pod with the same name, the ip is now owned by a newer pod
+				glog.Infof("skip unbinding pod %s uid %s, ip %s is owned by pod uid %s", key, uid,
+					ipInfo.IPInfo.IP.IP.String(), ipInfo.PodUid)
+				return nil
+			}
+		}
+	}
 	if p.cloudProvider != nil {
 		ipInfos, err := p.ipam.ByKeyAndIPRanges(key, nil)
 		if err != nil {
